@@ -136,3 +136,25 @@ Lemma tailrec_discard_refuted :
 Proof.
   exists w0, tp0, 50%N, d_fn, [1], 10%nat. vm_compute. repeat split; reflexivity.
 Qed.
+
+(* Why a PARAMETER at a return leaf of a unit function is not covered (TailRec.unit_param_class):
+     function u(n, x) { let c = n > 0; let r; if c { let m = n + -1; u(m, x); r = 0 } else { r = x }; return r }
+   is what the front end makes of `function u(n: int, x: unit): unit = if n > 0 { u(n - 1, x) } else { x }`.
+   u(1, 3) is 0, the loop version returns 3.  With x = 0 - the only value a unit has in a compiled program - both
+   return 0; that is an invariant of compiled programs, not of MIR. *)
+Definition u_fn : func :=
+  mkfunc 0%N [2; 3]%N [1; 1]%N 1%N
+    [SBin 4%N GT (V 2) (EInt 0);
+     SIf (V 4) [SBin 5%N PLUS (V 2) (EInt (-1)); SCall (CFn 0%N [1; 1]%N 1%N) [V 5; V 3] 1%N None] []
+         [mkq 6%N 1%N (EInt 0) (V 3)]]
+    (V 6).
+
+Lemma tailrec_unit_param_refuted :
+  exists (w : world) (tp : name -> name) (k : N) (f : func) (fuel : nat),
+    unit_param_class tp k [f] f = true /\ tail_ok k f = false /\
+    sem w [f] (f_name f) [1; 3] fuel = Done 0 [] /\
+    sem w [tail_rec_rewrite false tp k f] (f_name f) [1; 3] fuel = Done 3 [] /\
+    sem w [f] (f_name f) [1; 0] fuel = sem w [tail_rec_rewrite false tp k f] (f_name f) [1; 0] fuel.
+Proof.
+  exists w0, tp0, 50%N, u_fn, 10%nat. vm_compute. repeat split; reflexivity.
+Qed.
